@@ -18,7 +18,7 @@ META = {
                    "(4) the SVD wrapper returns factors of its argument in both orientation branches; (5) core/remainder "
                    "shapes are typed by the contraction checker (E5 obligations).",
     "assumptions": ["accuracy of torch.linalg.svd / numpy.linalg.svd", "floating-point roundoff is outside the claim"],
-    "floors": {"NARROW": 8, "E4-ALLOWANCE": 1, "E4-EPSFLOW": 3, "CMP-TOTAL": 1, "RANK-CAP": 3, "SVD-WRAP": 2},
+    "floors": {"E5-CHAIN": 20, "NARROW": 8, "E4-ALLOWANCE": 1, "E4-EPSFLOW": 3, "CMP-TOTAL": 1, "RANK-CAP": 3, "SVD-WRAP": 2},
 }
 ANCHORS = ["_decomposition.to_tt", "_decomposition.mat_to_tt", "_decomposition.rank_chop", "_decomposition.SVD",
            "_tt_base.TT.__init__"]
@@ -31,10 +31,10 @@ SHARE = {"re:\\(" + ORDER + " - 1\\)": Fraction(-1, 2), "re:" + ORDER: Fraction(
 
 def _canon_arg(nz, e):
     """the tensor an expression denotes, through single-assignment locals and value-preserving wrappers (.cpu().numpy())"""
-    cur = al.strip_wrappers(e)
+    cur = nz.strip(e)
     for _ in range(4):
         if isinstance(cur, ast.Name) and cur.id in nz.single_def and cur.id not in nz.f.params():
-            cur = al.strip_wrappers(nz.single_def[cur.id])
+            cur = nz.strip(nz.single_def[cur.id])
         else:
             break
     return norm(cur)
@@ -306,11 +306,27 @@ def cmp_total_ob(model: Model):
         obs.append(Ob("CMP-TOTAL", ek, OK if ok else ERROR, model.where(f, n), f"if {t}: {ret}",
                       "admissible early return" if ok else
                       "early return outside the two recognised cases (zero spectrum -> rank 1, eps <= 0 -> keep all): the decision it takes is not modelled"))
-    return obs
+    # The decision is DECIDED by evaluating the function over the finite domain of orderings of the tail energies against the threshold
+    # (ttsa/orderdom.py); the recognised-form reading above is the cross-reference
+    from .. import orderdom
+    sem = []
+    for inst, st, why in orderdom.decide(model, f):
+        sem.append(Ob("CMP-TOTAL", f"_decomposition.rank_chop:CMP-TOTAL:eval:{inst.name()}", {"ok": OK, "violated": VIOLATED, "leave": ERROR}[st], model.where(f),
+                      f"rank_chop on {inst.name()}", why if st != "leave" else f"the evaluation leaves the ordering domain: {why}"))
+    if any(o.status == ERROR for o in sem):
+        # not evaluable: the structural reading stands, the evaluation is reported as information only
+        for o in sem:
+            if o.status == ERROR:
+                o.status = INFO
+        if not any(o.status in (VIOLATED, ERROR) for o in obs):
+            return obs + sem
+        return obs + [o for o in sem if o.status != VIOLATED] + [o for o in sem if o.status == VIOLATED]
+    common.cross_reference(obs, sem, "rank_chop is evaluated on every ordering of the tail energies for n <= 4")
+    return obs + sem
 
 
 def check(model: Model, tier: str):
-    model.use_inlined("_decomposition.to_tt", "_decomposition.mat_to_tt", "_decomposition.round_tt")   # helpers around the rank selection are read in place
+    model.use_inlined("_decomposition.to_tt", "_decomposition.mat_to_tt", "_decomposition.round_tt", "_tt_base.TT.__init__")   # helpers around the rank selection / the decomposing constructor branches are read in place
     obs = []
     obs += allowance_sites(model, "_decomposition.to_tt", SHARE)
     # eps flows from the constructor to to_tt / mat_to_tt and from mat_to_tt to to_tt
@@ -318,7 +334,11 @@ def check(model: Model, tier: str):
     obs += eps_flow(model, "_tt_base.TT.__init__", "torchtt._decomposition.mat_to_tt")
     obs += eps_flow(model, "_decomposition.mat_to_tt", "torchtt._decomposition.to_tt")
     obs += cmp_total_ob(model)
-    obs += rank_cap(model, "_decomposition.to_tt")
+    from ..e5 import obligations as e5ob
+    from .common import cross_reference
+    sem = e5ob.for_property(model, "C01", tier)
+    # shape, chaining, kept factors and the per-bond cap of to_tt are decided by evaluating it as a whole at orders 2-4 (e5/scenarios7.py)
+    obs += cross_reference(rank_cap(model, "_decomposition.to_tt"), [o for o in sem if ":to_tt:d" in o.key], "E5 scenarios to_tt:d2-d4")
     obs += svd_wrapper(model)
     # rmax flows too: every to_tt / mat_to_tt call of the constructor passes rmax
     f = model.func("_tt_base.TT.__init__")
@@ -335,11 +355,7 @@ def check(model: Model, tier: str):
             any(isinstance(a, ast.Name) and a.id == "rmax" for a in call.args)
         obs.append(Ob("RANK-CAP", "_decomposition.mat_to_tt:RANK-CAP:rmax-passed", OK if passes else VIOLATED,
                       model.where(mt, call), norm(call)[:100], "rmax forwarded" if passes else "rmax not forwarded to to_tt"))
-    try:
-        from ..e5 import obligations as e5ob
-        obs += e5ob.for_property(model, "C01", tier)
-    except ImportError:
-        pass
+    obs += sem
     # complex sources are decomposed as complex: no narrowing conversion on the data path
     from ..dtypekind import rule_narrow, self_fixture
     obs += rule_narrow(model, [model.func(a) for a in ("_tt_base.TT.__init__", "_decomposition.to_tt", "_decomposition.mat_to_tt", "_decomposition.SVD",
